@@ -12,10 +12,11 @@ import cgroup
 from cgroup import Case
 
 ID = "C05"
-LEAN_MODULES = ["FaxVerif.C05.Theorems", "FaxVerif.C05.TheoremsFragment", "FaxVerif.C05.TheoremsNested", "FaxVerif.C05.TheoremsWf"]
+LEAN_MODULES = ["FaxVerif.C05.Theorems", "FaxVerif.C05.TheoremsFragment", "FaxVerif.C05.TheoremsNested", "FaxVerif.C05.TheoremsWf", "FaxVerif.C05.TheoremsLazy"]
 LEAN_SOURCES = ["FaxVerif/C05", "FaxVerif/Cpp", "FaxVerif/Gen"]
 DRIVER = cgroup.DRIVER
-SETUP_MODULES = cgroup.DRIVER_IMPORTS  # what the driver imports
+SETUP_MODULES = cgroup.DRIVER_IMPORTS + ["FaxVerif.Gen.Lazy"]  # what the drivers import
+LAZY_DRIVER = "FaxVerif/Gen/LazyJobDriver.lean"
 THEOREMS = [
     "FaxVerif.C05.compile_eventLocal",
     "FaxVerif.C05.fragment_job_is_per_event",
@@ -29,6 +30,15 @@ THEOREMS = [
     "FaxVerif.C05.nested_job_split",
     "FaxVerif.C05.nested_prefix_independent",
     "FaxVerif.C05.nested_perm",
+    "FaxVerif.C05.lazy_result_restarts",
+    "FaxVerif.C05.lazy_event_post_partial",
+    "FaxVerif.C05.lazy_init_pre",
+    "FaxVerif.C05.lazy_event_history_free_partial",
+    "FaxVerif.C05.lazy_job_correct_partial",
+    "FaxVerif.C05.lazy_job_blocks_partial",
+    "FaxVerif.C05.lazy_job_split",
+    "FaxVerif.C05.lazy_prefix_independent",
+    "FaxVerif.C05.lazy_perm",
     "FaxVerif.C05.fragment_job_correct_partial",
     "FaxVerif.C05.fragment_job_blocks_partial",
     "FaxVerif.C05.fragment_job_split",
@@ -48,7 +58,8 @@ THEOREMS = [
 RULE = (
     "type-directed random queries over a synthetic data model declared through the query's own metadata (two collections, "
     "int/float/double/bool methods, collection-returning methods), event-level and element-level rows, scalar / 1-D / 2-D "
-    "columns, Count/Sum/Aggregate/First, and/or/if; 5 generated events each (sizes 0-4, empties over-weighted); all three "
+    "columns, Count/Sum/Aggregate/First, and/or/if; in about a fifth of the queries a nested lambda re-uses the NAME of an enclosing lambda's parameter "
+    "which the enclosing body goes on using afterwards (tools/qgen.py shadow_pass); 5 generated events each (sizes 0-4, empties over-weighted); all three "
     "backends. Non-trivial: >=2 distinct operators and >=1 event with a row; distinct = distinct (backend, query)."
 )
 TRUSTED_BASE = [
@@ -71,6 +82,11 @@ LEVEL_TEXT = (
     "(fragment_fault_is_the_events). The same for the NESTED fragment (loops inside lambdas: per-element inner aggregates, 2-D columns): the inner "
     "accumulator and the 2-D storage vector restart for every outer element (inner_accumulator_restarts, storage_vector_restarts) and a "
     "job is the concatenation of its events (nested_job_correct_partial, nested_job_split, nested_prefix_independent, nested_perm). "
+    "The same for the LAZY fragment (Gen.compileL: element-level rows whose filters and columns use and / or / if-else, lowered to statements "
+    "with result variables bool_opN / if_else_resultN assigned on some paths only): the value a lowered expression computes for an element is "
+    "the same from any two states, whatever the result variables held before (lazy_result_restarts); an event writes the same rows from any two "
+    "class states with the columns declared (lazy_event_history_free_partial, lazy_event_post_partial, lazy_init_pre); a job over any list of "
+    "events is the concatenation of its events (lazy_job_correct_partial, lazy_job_blocks_partial, lazy_job_split, lazy_prefix_independent, lazy_perm). "
     "(2) Lean 4 theorems for every package accepted by the verified static checker EventLocal (definite assignment from an empty "
     "initial knowledge + vector columns cleared after every fill): one job = concatenation of per-event runs from the initial "
     "class state, for all event lists; split, prefix-independence and permutation corollaries. The checker is run on the "
@@ -79,8 +95,9 @@ LEVEL_TEXT = (
 )
 LEVEL_NOTE = (
     "Proved: soundness of the checker w.r.t. the modelled C++ semantics (exec_sound, emp_sound, runEvent_local), no bound on "
-    "events or program size; and, without the checker, event-locality of every program of the fragment F0-lite (success "
-    "direction: jobs containing an event on which the query faults are outside the fragment theorems). Not proved: that the "
+    "events or program size; and, without the checker, event-locality of every program of the fragments F0-lite, nested and lazy (success "
+    "direction: jobs containing an event on which the query faults are outside these fragment theorems; for F0-lite the checker route covers them, "
+    "for the nested and the lazy fragment acceptance by the checker is sampled, not proved). Not proved: that the "
     "translator's output beyond the fragment is ALWAYS accepted by the checker (that is sampled: every generated query, three backends); the C++ semantics and the text parser are trusted. Programs containing opaque user C++ are outside "
     "the checker (counted separately)."
 )
@@ -239,11 +256,12 @@ def gen_cases(ctx, n):
 def run_stream(ctx, cases, stream):
     revs = []
     for c in cases:
-        cgroup.translate(c)
+        translate_any(c)
         r = Case(c.backend, c.query, c.names, c.form, list(reversed(c.events)))
         r.result, r.package = c.result, c.package
         revs.append(r)
-    cgroup.run_cases(ctx, cases, with_query=True)
+    cgroup.run_cases(ctx, [c for c in cases if not isinstance(c, LazyCase)], with_query=True)
+    cgroup.run_cases(ctx, [c for c in cases if isinstance(c, LazyCase)], with_query=False)
     cgroup.run_cases(ctx, revs, with_query=False)
     attach(cases, revs, ctx, sample=40 if stream == "generated" else 10 ** 6)  # corpus cases are always run under g++ too
     for c, r in zip(cases, revs):
@@ -293,15 +311,125 @@ class _Collector:
         pass
 
 
+class LazyCase(Case):
+    """a query of the lazy fragment (`Gen.FQL` as JSON, tools/gentie_lazy.py): the implementation's program is judged
+    like any other case; the text it is rendered to is the fragment's own"""
+
+    def __init__(self, backend, fq, events):
+        super().__init__(backend, {"k": "ds"}, [c["name"] for c in fq["cols"]], "lazy_elem_rows", events)
+        self.fq = fq
+        self.family = "lazy"
+
+    def source(self, with_md=False):
+        import gentie_lazy
+
+        return gentie_lazy.fq_source(self.fq, cgroup.qgen.metadata(self.backend) if with_md else [])
+
+    def to_json(self):
+        return {"backend": self.backend, "lazy_fq": self.fq, "names": self.names, "form": self.form, "events": self.events, "source": self.source()}
+
+
+def case_from_json(j):
+    return LazyCase(j["backend"], j["lazy_fq"], j["events"]) if "lazy_fq" in j else Case.from_json(j)
+
+
+def translate_any(c):
+    if isinstance(c, LazyCase):
+        c.result = cgroup.P.translate_functional(c.backend, c.source(with_md=True))
+        if c.result["ok"]:
+            c.package = cgroup.qgen.package_json(c.result)
+        return c
+    return cgroup.translate(c)
+
+
+def lazy_stream(ctx, n):
+    """The lazy fragment of the translator model (`Gen.compileL`; theorems of C05/TheoremsLazy.lean), on every run:
+    (a) tie: the model's package text equals the real translator's modulo renaming (as in C01's lazy tie);
+    (b) theorem instances on the model: inside the proved fragment (`wt`) and where the query is defined on every
+        event, the model's job writes the concatenation of the denotations (`lazy_job_correct_partial`); in any case
+        the model's job equals its per-event runs, and `EventLocal` accepts the model's package (sampled, not proved);
+    (c) the property on the IMPLEMENTATION's program for the same query: job vs per-event vs reversed job (`judge`)."""
+    import gentie
+    import gentie_lazy
+
+    cases, reqs = [], []
+    for i in range(n):
+        b = cgroup.P.BACKENDS[i % 3]
+        fq = gentie_lazy.LazyGen(ctx.rng).fq()
+        if not gentie.valid(fq):
+            ctx.count("lazy:regenerated")
+            continue
+        evs = [gentie_lazy.gen_event(ctx.rng, b, fq) for _ in range(4)]
+        c = LazyCase(b, fq, evs)
+        translate_any(c)
+        cases.append(c)
+        reqs.append({"op": "compileLJob", "backend": b, "colls": gentie.colls_json(b), "fq": fq, "events": evs})
+    outs = ctx.driver(LAZY_DRIVER, reqs, timeout=900)
+    revs = []
+    for c in cases:
+        r = Case(c.backend, c.query, c.names, c.form, list(reversed(c.events)))
+        r.result, r.package = c.result, c.package
+        revs.append(r)
+    cgroup.run_cases(ctx, cases, with_query=False)
+    cgroup.run_cases(ctx, revs, with_query=False)
+    for c, r, o in zip(cases, revs, outs):
+        ctx.count("stream:lazy")
+        ctx.count(f"lazy:backend:{c.backend}")
+        ops = {}
+        gentie_lazy.count_ops(c.fq, ops)
+        for k, v in ops.items():
+            ctx.count("lazy:op:" + k, v)
+        info = {"backend": c.backend, "source": c.source(), "fq": c.fq}
+        if "bad" in o:
+            ctx.disagreement("Gen.compileL driver", info, "answer", o["bad"])
+            continue
+        if not c.result["ok"]:
+            ctx.violation(key=f"lazy|{c.backend}|{c.source()}", what=f"a query of the modelled lazy fragment is refused ({c.result['error']})", case=c.to_json(), observed=c.result.get("message"))
+            continue
+        per, job, den = o["exec"], o["job"], o["denote"]
+        defined = all("fault" not in d for d in den)
+        ctx.case("lazy|" + c.key(), bool(ops) and any(d.get("num") for d in den), {"backend": c.backend, "query": c.source(), "rows_first_event": per[0] if per else None})
+        # (b) the model
+        exp_rows, exp_fault = [], None
+        for x in per:
+            if "fault" in x:
+                exp_fault = cgroup.fault_class(x)
+                break
+            exp_rows += x["rows"]
+        ok = (cgroup.fault_class(job) == exp_fault) if exp_fault else job.get("rows") == exp_rows
+        if not ok:
+            ctx.disagreement("Gen.compileL: job vs per-event (model instance)", info, per, job)
+            continue
+        if o.get("wt") and defined:
+            ctx.count("lazy:inside-proved-fragment")
+            if job.get("rows") != [row for d in den for row in d["rows"]]:
+                ctx.disagreement("Gen.compileL: job vs denotation (instance of lazy_job_correct_partial)", info, [d["rows"] for d in den], job)
+                continue
+        ctx.count("lazy:model-EventLocal:" + ("accepted" if o.get("eventlocal") else "rejected"))
+        if not o.get("eventlocal"):
+            ctx.disagreement("EventLocal(Gen.compileL package)", info, "accepted", "rejected")
+            continue
+        # (a) the tie
+        d = gentie.first_diff(gentie.model_canon(o), gentie.impl_canon(c.result))
+        if d is not None:
+            ctx.count("lazy:text-differs")
+            ctx.disagreement("Gen.compileL vs translator (lazy fragment, text modulo renaming)", dict(info, first_difference=d), o.get("body"), c.result["query"])
+        else:
+            ctx.count("lazy:text-agree")
+        # (c) the property on the implementation's own program
+        judge(ctx, c, r)
+
+
 def run(ctx):
     from vlib import corpus_cases
 
     known_stream(ctx)
-    corpus = [Case.from_json(j) for j in corpus_cases(ID)]
+    corpus = [case_from_json(j) for j in corpus_cases(ID)]
     if corpus:
         run_stream(ctx, corpus, "corpus")
     n = N_QUICK if ctx.tier == "quick" else N_THOROUGH
     run_stream(ctx, gen_cases(ctx, n), "generated")
+    lazy_stream(ctx, 60 if ctx.tier == "quick" else 300)
     ctx.extra_cov["exhaustive"] = False
 
 
@@ -335,9 +463,9 @@ def search(ctx, broken):
 
 
 def replay(ctx, rep) -> int:
-    c = Case.from_json(rep["case"])
+    c = case_from_json(rep["case"])
     r = Case(c.backend, c.query, c.names, c.form, list(reversed(c.events)))
-    cgroup.translate(c)
+    translate_any(c)
     r.result, r.package = c.result, c.package
     cgroup.run_cases(ctx, [c], with_query=False)
     cgroup.run_cases(ctx, [r], with_query=False)
